@@ -3,7 +3,10 @@ package props
 import (
 	"fmt"
 	"runtime"
+	"sync"
 	"time"
+
+	netty "github.com/go-netty/go-netty"
 
 	"verif/core"
 	"verif/mon"
@@ -71,6 +74,24 @@ func genCfg(c *core.Ctx, idx int, plans []wl.NamedPlan) wl.Cfg {
 	default:
 		cfg.PlanKind = "stress"
 	}
+	if cfg.Wrap != nil && rng.Intn(2) == 0 {
+		// underneath the wrapper every transport call is a conn.Write: a slow one (peer not reading) at a random occurrence
+		occ, d := 1+rng.Intn(4), time.Duration(100+rng.Intn(900))*time.Microsecond
+		cfg.Plan = append(append([]mon.Step{}, cfg.Plan...), mon.Step{At: "tW0", Occ: occ, Kind: mon.Sleep, D: d})
+		cfg.PlanKind += fmt.Sprintf("+slow-conn-write#%d", occ)
+	}
+	if idx%16 == 13 {
+		// the write-only buffering wrapper has no lock of its own: it relies on the channel to serialise write+flush.
+		// Several writers, small payloads (they stay in the bufio buffer until the flush), every conn.Write slow.
+		wv := [2]int{0, []int{64, 256, 4096}[rng.Intn(3)]}
+		cfg.Wrap = &wv
+		cfg.Mode = mon.Mode(rng.Intn(3))
+		cfg.Writers = 2 + rng.Intn(3)
+		cfg.PerWriter = 4 + rng.Intn(8)
+		cfg.Sizes = []int{1, 15, 16, 17, 40}
+		cfg.Plan = []mon.Step{{At: "tW0", Occ: 0, Kind: mon.Sleep, D: time.Duration(50+rng.Intn(300)) * time.Microsecond}}
+		cfg.PlanKind = "write-buffered-wrapper:every-conn-write-slow"
+	}
 	return cfg
 }
 
@@ -91,6 +112,15 @@ func runC01(c *core.Ctx) {
 		}
 		cfg := genCfg(c, idx, plans)
 		runtime.GOMAXPROCS(cfg.Procs)
+		if idx%16 == 9 {
+			if !siblingsC01(c, id, idx, cfg) {
+				if stuck++; stuck >= 2 {
+					c.Count("aborted_after_watchdogs", 1)
+					break
+				}
+			}
+			continue
+		}
 		h := wl.Run(cfg, c.Rand("trial", idx), 8*time.Second)
 		judgeC01(c, id, h)
 		h.Rig.Dispose()
@@ -102,6 +132,90 @@ func runC01(c *core.Ctx) {
 		}
 	}
 	runtime.GOMAXPROCS(runtime.NumCPU())
+}
+
+// siblingsC01 runs three channels created by ONE factory value at the same time (a Bootstrap creates all of
+// its channels from one factory): each channel has its own writers (disjoint writer ids) and its own recording
+// transport whose write calls are entered late (a delay between the call and the moment the transport looks
+// at the buffers, like a vectored write waiting for socket space). Every channel is judged by the same oracle:
+// bytes accepted by a sibling are "never written" on this channel.
+func siblingsC01(c *core.Ctx, id string, idx int, base wl.Cfg) bool {
+	rng := c.Rand("siblings", idx)
+	mode := mon.Blocking
+	if rng.Intn(3) == 0 {
+		mode = mon.NonBlock
+	}
+	q := []int{2, 4, 8, 64}[rng.Intn(4)]
+	var f netty.ChannelFactory
+	if mode == mon.Blocking {
+		f = netty.NewAsyncWriteChannel(q, true)
+	} else {
+		f = netty.NewAsyncWriteChannel(q, false)
+	}
+	const n = 3
+	hs := make([]*wl.History, n)
+	var wg sync.WaitGroup
+	for k := 0; k < n; k++ {
+		cfg := wl.Cfg{Mode: mode, Queue: q, Writers: 1 + rng.Intn(3), PerWriter: 3 + rng.Intn(8), Sizes: []int{1, 15, 16, 17, 40, 100, 1025},
+			Procs: base.Procs, Factory: f, WBase: 4 * k, PlanKind: "siblings:late-transport-entry", NoCtxKinds: true}
+		cfg.Plan = []mon.Step{
+			{At: "tV0", Occ: 0, Kind: mon.Sleep, D: time.Duration(50+rng.Intn(400)) * time.Microsecond},
+			{At: "sBat", Occ: 0, Kind: mon.Yield, N: 1 + rng.Intn(3)},
+		}
+		wg.Add(1)
+		tr := c.Rand("sibling-trial", idx, k)
+		go func(k int, cfg wl.Cfg) {
+			defer wg.Done()
+			hs[k] = wl.Run(cfg, tr, 8*time.Second)
+		}(k, cfg)
+	}
+	wg.Wait()
+	ok := true
+	overlap := 0
+	for k, h := range hs {
+		judgeC01(c, fmt.Sprintf("%s/sib%d", id, k), h)
+		if !h.Quiesced {
+			ok = false
+		}
+	}
+	// evidence: transport write calls (entry mark .. exit mark, logical ticks) that overlapped a sibling's
+	iv := make([][][2]uint64, n)
+	for k, h := range hs {
+		var in uint64
+		for _, e := range h.Rig.S.Log() {
+			switch e.Name {
+			case "tV0", "tW0":
+				in = e.Tick
+			case "tV1", "tW1":
+				if in != 0 {
+					iv[k] = append(iv[k], [2]uint64{in, e.Tick})
+					in = 0
+				}
+			}
+		}
+	}
+	for k := range iv {
+		for _, a := range iv[k] {
+		sib:
+			for k2 := range iv {
+				if k2 == k {
+					continue
+				}
+				for _, b := range iv[k2] {
+					if a[0] < b[1] && b[0] < a[1] {
+						overlap++
+						break sib
+					}
+				}
+			}
+		}
+	}
+	c.Count("sibling_trials", 1)
+	c.Count("sibling_transport_calls_overlapping", int64(overlap))
+	for _, h := range hs {
+		h.Rig.Dispose()
+	}
+	return ok
 }
 
 func judgeC01(c *core.Ctx, id string, h *wl.History) {
